@@ -15,10 +15,111 @@ import (
 	"github.com/pojntfx/panrpc/go/pkg/rpc"
 )
 
+// streamReplay: the hand-offs each stream decoder really performed, replayed on the Lean stream model
+// against the envelope sequence the peer really wrote.
+func streamReplay(rep *Report, evs []Event, inputs map[string][]string, what string) {
+	byG := map[string][]string{}
+	var order []string
+	for _, e := range evs {
+		switch e.Point {
+		case "dec.handreq", "dec.handres", "dec.exit":
+			if _, ok := byG[e.G]; !ok {
+				order = append(order, e.G)
+			}
+			byG[e.G] = append(byG[e.G], e.Point)
+		}
+	}
+	for _, g := range order {
+		accepted := false
+		var lastAns string
+		for _, toks := range inputs {
+			lines := []string{"st reset " + strings.Join(append(append([]string{}, toks...), "err"), " ")}
+			for _, ev := range byG[g] {
+				switch ev {
+				case "dec.handreq":
+					lines = append(lines, "st decRead", "st handReq")
+				case "dec.handres":
+					lines = append(lines, "st decRead", "st handRes")
+				case "dec.exit":
+					lines = append(lines, "st decRead")
+				}
+			}
+			lines = append(lines, "st state")
+			ans, err := runDriver(lines)
+			if err != nil {
+				rep.addViolation("correspondence", "C08:driver", "Lean driver failed: "+err.Error(), nil)
+				return
+			}
+			ok := true
+			for _, a := range ans[:len(ans)-1] {
+				if !strings.HasPrefix(a, "ok") {
+					ok = false
+					lastAns = a
+				}
+			}
+			if ok {
+				accepted = true
+				rep.ModelSteps += len(ans) - 2
+				break
+			}
+		}
+		rep.TracesValidated++
+		if !accepted {
+			rep.addViolation("correspondence", "C08:stream-model", fmt.Sprintf("%s: the hand-offs of a stream decoder (%v…) are not a run of the stream model on either peer's envelope sequence: %s", what, head(byG[g], 6), lastAns), nil)
+		}
+	}
+}
+
+func head(xs []string, n int) []string {
+	if len(xs) > n {
+		return xs[:n]
+	}
+	return xs
+}
+
+// envelopeKinds turns the bytes one side wrote (newline-delimited JSON envelopes) into model tokens.
+func envelopeKinds(b []byte) []string {
+	var out []string
+	n := 0
+	for _, l := range strings.Split(string(b), "\n") {
+		if strings.TrimSpace(l) == "" {
+			continue
+		}
+		var m struct {
+			Request  json.RawMessage `json:"request"`
+			Response json.RawMessage `json:"response"`
+		}
+		if json.Unmarshal([]byte(l), &m) != nil {
+			continue
+		}
+		n++
+		hasReq := len(m.Request) > 0 && string(m.Request) != "null"
+		hasRes := len(m.Response) > 0 && string(m.Response) != "null"
+		switch {
+		case hasReq && hasRes:
+			out = append(out, fmt.Sprintf("both:%d:%d", n, n))
+		case hasReq:
+			out = append(out, fmt.Sprintf("req:%d", n))
+		case hasRes:
+			out = append(out, fmt.Sprintf("res:%d", n))
+		default:
+			out = append(out, "empty")
+		}
+	}
+	return out
+}
+
 func c08Transcript[T any](codec Codec[T], api string, chunk func(int) int, rng *rand.Rand, script []int) ([]string, error) {
 	p, err := NewPair(codec, PairOpts{API: api, Chunk: chunk})
 	if err != nil {
 		return nil, err
+	}
+	if api == "stream" && codec.Name == "json-raw" && c08Rep != nil {
+		rec, stop := startTraceRec()
+		defer stop()
+		defer func() {
+			streamReplay(c08Rep, rec.events(), map[string][]string{"A": envelopeKinds(p.StreamB.Bytes()), "B": envelopeKinds(p.StreamA.Bytes())}, "seeded workload over the stream API")
+		}()
 	}
 	ra, _, _ := p.A.AnyRemote()
 	rb, _, _ := p.B.AnyRemote()
@@ -165,7 +266,10 @@ func c08HangUp(api string, k int) (handled int, err error) {
 	return handled, nil
 }
 
+var c08Rep *Report
+
 func runC08(rep *Report, tier string, seed int64) {
+	c08Rep = rep
 	hangs := 10
 	if tier == "thorough" {
 		hangs = 200
